@@ -118,3 +118,40 @@ theorem schema_ref_keys_distinct (d : J) (hn : C12.NodupKeys d)
   (refsOf_keys_sublist _).nodup (C12.keys_distinct d hn hpk)
 
 end C11
+
+namespace C13
+open J Spec.Index
+
+/-- a view that files each selected position under the position's key has a sublist of the positions' keys -/
+theorem view_keys_sublist (g : Pos → Option (String × J)) (hg : ∀ p e, g p = some e → e.1 = key p.1)
+    (ps : List Pos) : ((ps.filterMap g).map (·.1)).Sublist (ps.map fun p => key p.1) := by
+  induction ps with
+  | nil => simp
+  | cons p ps ih =>
+    simp only [List.filterMap_cons, List.map_cons]
+    cases h : g p with
+    | none => exact ih.cons _
+    | some e => simp only [List.map_cons]; rw [hg p e h]; exact ih.cons_cons _
+
+/-- the step from the log to the map for the schema category of the pattern index: in a document with distinct object
+    keys no two schema patterns are filed under one key -/
+theorem schema_pattern_keys_distinct (d : J) (hn : C12.NodupKeys d)
+    (hpk : ∀ kv ∈ d.getObj "paths", Doc.isPathKey kv.1 = true) :
+    ((patternsOf (allSchemas d)).map (·.1)).Nodup := by
+  refine (view_keys_sublist _ ?_ _).nodup (C12.keys_distinct d hn hpk)
+  intro p e h
+  split at h
+  · cases h; rfl
+  · cases h
+
+/-- … and the same for the enum index -/
+theorem schema_enum_keys_distinct (d : J) (hn : C12.NodupKeys d)
+    (hpk : ∀ kv ∈ d.getObj "paths", Doc.isPathKey kv.1 = true) :
+    ((enumsOf (allSchemas d)).map (·.1)).Nodup := by
+  refine (view_keys_sublist _ ?_ _).nodup (C12.keys_distinct d hn hpk)
+  intro p e h
+  split at h
+  · cases h; rfl
+  · cases h
+
+end C13
